@@ -6,6 +6,7 @@ mod sc_await;
 mod sc_chan;
 mod sc_glitch;
 mod sc_lock;
+mod sc_read;
 mod sc_sig;
 mod sc_stress;
 
@@ -18,6 +19,7 @@ fn c19(case: &Sexp) -> Sexp {
         3 => sc_sig::run(case),
         4 => sc_glitch::run(case),
         5 => sc_lock::run(case),
+        7 => sc_read::run(case),
         9 => sc_stress::run(case),
         _ => Lst(vec![Num(-1)]),
     }
